@@ -21,6 +21,10 @@ var vfC03Invalid = []string{
 	"MULTIPOLYGON(((0 0,4 0,4 4,0 4,0 0)),((4 0,8 0,8 4,4 4,4 0)))",              // members share an edge
 	"MULTIPOLYGON(((0 0,8 0,8 8,0 8,0 0)),((2 2,4 2,4 4,2 4,2 2)))",              // member inside another
 	"LINESTRING(1 1,1 1)", // fewer than two distinct points
+	// four holes (the R-tree of five rings has two levels), two of them crossing / nested / touching twice
+	"POLYGON((0 0,20 0,20 20,0 20,0 0),(2 2,8 2,8 8,2 8,2 2),(12 12,18 12,18 18,12 18,12 12),(12 2,18 2,18 8,12 8,12 2),(6 6,14 6,14 14,6 14,6 6))",
+	"POLYGON((0 0,20 0,20 20,0 20,0 0),(2 2,8 2,8 8,2 8,2 2),(12 12,18 12,18 18,12 18,12 12),(2 12,8 12,8 18,2 18,2 12),(13 13,17 13,15 17,13 13))",
+	"POLYGON((0 0,20 0,20 20,0 20,0 0),(2 2,8 2,8 8,2 8,2 2),(12 12,18 12,18 18,12 18,12 12),(2 12,8 12,8 18,2 18,2 12),(8 2,12 4,8 8,10 5,8 2))",
 }
 
 // vfRewriteRings rewrites every closed curve of g from another start vertex
@@ -55,6 +59,13 @@ func vfRewriteRings(g Geometry, rot int, rev bool) Geometry {
 		var rings []LineString
 		for _, r := range g.MustAsPolygon().DumpRings() {
 			rings = append(rings, rw(r))
+		}
+		// the holes are listed starting rot positions further as well
+		if nh := len(rings) - 1; nh > 1 {
+			holes := append([]LineString{}, rings[1:]...)
+			for i := range holes {
+				rings[1+i] = holes[(i+rot)%nh]
+			}
 		}
 		return NewPolygon(rings).AsGeometry()
 	case TypeMultiLineString:
